@@ -60,7 +60,8 @@ def install(eng):
         vc.f_path_of_str(z3.Concat(eng.to_str(V(vc.Name, f_bname(b_))).z, z3.StringVal("-backend-tracked.json"))))))
     eng.contract("gwf.backends.base:TrackingBackend._get_state_path", self_type=B, params={"self": B},
                  returns=vc.Path, returns_expr="StatePath(self)", pure=True, uses=["statepath"], serves=["C08", "C09"])
-    S89 = ["C08", "C09"]
+    # the tracked-jobs table feeds the scheduling decision of every later invocation: C02 / C05 / C06 histories too
+    S89 = ["C08", "C09", "C02", "C05", "C06"]
     eng.contract("gwf.backends.base:TrackingBackend._init_tracked", self_type=B, params={"self": B},
                  returns=vc.TrackedT,
                  ensures=["implies(StatePath(self) in disk_exists, dict_eq(result, disk_tracked[StatePath(self)]))",
@@ -69,7 +70,7 @@ def install(eng):
                  serves=S89, note="C08: ids are those written by the previous close(); C09: an unreadable file is the "
                                   "only way this raises")
     eng.contract("gwf.backends.base:TrackingBackend._init_status", self_type=B, params={"self": B},
-                 returns=vc.JobStatesT, raises={"BackendError": "True"}, serves=["C08"])
+                 returns=vc.JobStatesT, raises={"BackendError": "True"}, serves=S89)
     eng.contract("gwf.backends.base:TrackingBackend.status", self_type=B, params={"self": B, "target": vc.Target},
                  returns=vc.BStatus, returns_expr="BStat(self, target)",      # C08
                  serves=["C08", "C02", "C05"])
@@ -124,7 +125,7 @@ def install(eng):
     # C09: even when the scheduler connection fails at close, the accepted ids are written
     CLOSE_EXC = {"OSError": {"cond": "True", "ensures": CLOSE_ENS}}
     eng.contract("gwf.backends.base:TrackingBackend.close", self_type=B, params={"self": B}, modifies=DISK,
-                 ensures=CLOSE_ENS, raises=CLOSE_EXC, serves=["C08", "C09", "C05"])
+                 ensures=CLOSE_ENS, raises=CLOSE_EXC, serves=S89)
     eng.contract("gwf.backends.base:TrackingBackend.__enter__", self_type=B, params={"self": B}, returns=B,
                  returns_expr="self", serves=["C09"])
     eng.contract("gwf.backends.base:TrackingBackend.__exit__", self_type=B, params={"self": B, "exc": T.NONE},
